@@ -267,5 +267,9 @@ func (x *Exec) registerExternSpecs() {
 	add("fmt_sprintln", []p{{"a", "Seq_Iface", nil}}, "Str", str)
 	add("err_msg", []p{{"e", "Iface", nil}}, "Str", str)
 	add("idx_byte", []p{{"s", "Str", str}, {"c", "Int", nil}}, "Int", nil)
+	// behaviour oracle of user callbacks: does the call of f made when the trace had length n return, and if not, what does it raise
+	add("cbReturns", []p{{"f", "Int", nil}, {"n", "Int", nil}}, "Bool", nil)
+	add("cbPanicVal", []p{{"f", "Int", nil}, {"n", "Int", nil}}, "Iface", nil)
+	r.Axiom("(assert (forall ((f Int) (n Int)) (! (not (= (itag (cbPanicVal f n)) 0)) :pattern ((cbPanicVal f n)))))")
 	x.declIdxByte()
 }
